@@ -76,7 +76,7 @@ def run(ctx):
         hostile_events = sum(1 for line in open(trace) if '"e":"Hostile"' in line)
         ctx.notes.setdefault("sims", []).append({"name": name, "hostile_bursts": hostile_events,
                                                  **{k: summary[k] for k in ("events", "finals", "messages", "panics", "node_errors")}})
-        if hostile_events < 10:
+        if hostile_events < 10 and not (summary["panics"] or summary["node_errors"] or summary["task_panics"]):
             raise ToolError(f"vacuity: only {hostile_events} hostile bursts in {name}")
         # the spec expects: no task panics ...
         for p in summary["panics"] + summary["node_errors"] + summary["task_panics"]:
